@@ -31,6 +31,16 @@ BOUND = {
 }
 CHUNK = 256
 
+def _o_filter(case):
+    # fault-free worlds on <=3 layers and the plain n=4 naming family, no options
+    return (case[0] != 'cli' and not case[7] and case[8] in ('none', 'rep', 'j2')
+            and (case[0] <= 3 or (isinstance(case[3], list) and case[3] == sorted(case[3]))))
+
+
+# `assert` statements vanish under python -O: anything the runner does inside
+# one is not done there
+ENV_PASSES = [{'name': 'python -O', 'argv': ['-O'], 'env': {}, 'filter': _o_filter}]
+
 OPTS = {
     'none': [],
     'x': ['-x'],
